@@ -282,12 +282,31 @@ func (s *Syncer[H]) findTailHeight(ctx context.Context, oldTail, head H) (uint64
 		newTailHeight++
 	}
 
+	// header times may be spaced tighter than the block time, so the estimate may lie above the
+	// first header of the window: walk down to it, so that no header within the window is pruned
+	for newTailHeight > oldTail.Height()+1 && newTailHeight <= s.store.Height() {
+		prev, err := s.store.GetByHeight(ctx, newTailHeight-1)
+		if err != nil {
+			return 0, fmt.Errorf(
+				"getting header below estimated new tail(%d) from store: %w",
+				estimatedTailHeight,
+				err,
+			)
+		}
+
+		if expectedTailTime.Compare(prev.Time().UTC()) > 0 {
+			break
+		}
+
+		newTailHeight--
+	}
+
 	log.Debugw(
 		"new tail height",
 		"new_confirmed_tail",
 		newTailHeight,
-		"estimation_error",
-		newTailHeight-estimatedTailHeight,
+		"estimated_tail",
+		estimatedTailHeight,
 	)
 	return newTailHeight, nil
 }
